@@ -4,7 +4,8 @@
 # On success copies patch+demo+meta into /verif/seeded/<property>-<X>/ ; always removes the worktree.
 set -u
 PID=$1; X=$2
-SRC=/tmp/seedout/$PID
+SRC=${3:-/tmp/seedout/$PID}
+DEST=${4:-$PID-$X}
 WT=$(mktemp -d ${TMPDIR:-/tmp}/pycel-seedchk.XXXXXX)
 rmdir $WT
 git -C /repo worktree add -q --detach $WT HEAD || exit 9
@@ -19,17 +20,17 @@ git apply $SRC/$X.patch || { echo "$PID-$X: PATCH DOES NOT APPLY to HEAD"; exit 
 TAIL=$(tail -1 /tmp/seedchk.$PID.$X.tests.log)
 echo "$PID-$X: demo_clean_exit=$CLEAN demo_mutant_exit=$MUT tests_exit=$TESTS ($TAIL)"
 if [ $CLEAN -eq 0 ] && [ $MUT -ne 0 ] && [ $TESTS -eq 0 ]; then
-  D=/verif/seeded/$PID-$X; mkdir -p $D
+  D=/verif/seeded/$DEST; mkdir -p $D
   git diff > $D/patch.diff
   cp $SRC/${X}_demo.py $D/demo.py
   cp $SRC/$X.md $D/description.md
   HEAD=$(git -C /repo rev-parse HEAD)
-  python3 - "$PID" "$X" "$HEAD" "$TAIL" <<'PY'
+  python3 - "$PID" "$DEST" "$HEAD" "$TAIL" <<'PY'
 import json,sys
-pid,x,head,tail=sys.argv[1:5]
-d=f'/verif/seeded/{pid}-{x}'
+pid,dest,head,tail=sys.argv[1:5]
+d=f'/verif/seeded/{dest}'
 desc=open(f'{d}/description.md').read()
-json.dump({'property':pid,'id':f'{pid}-{x}','breaks':pid,'needs_to_manifest':desc[:1500],
+json.dump({'property':pid,'id':dest,'breaks':pid,'needs_to_manifest':desc[:1500],
  'confirmed':{'repo_head':head,'patch_applies':True,'suite_with_patch':tail,'demo_with_patch':'fails (non-zero exit)','demo_without_patch':'passes (exit 0)',
  'commands':['git worktree add --detach <tmp> HEAD','git apply patch.diff','PYTHONPATH=<tmp>/src /venv/bin/python demo.py','PYTHONPATH=<tmp>/src /venv/bin/python -m pytest -q -p no:cacheprovider -x tests']},
  'detected_by':None}, open(f'{d}/meta.json','w'), indent=1)
